@@ -968,15 +968,26 @@ def _str_atoms(seq):
                 value = str(abs(fragment.charge)) if abs(fragment.charge) > 1 else ''
                 ret += '{'+value+sign+'}'
             if count != 1:
-                ret += "%g"%count
+                ret += _str_count(count)
         else:
             if count == 1:
                 piece = _str_atoms(fragment)
             else:
-                piece = "(%s)%g"%(_str_atoms(fragment), count)
+                piece = "(%s)%s"%(_str_atoms(fragment), _str_count(count))
             #ret = ret+" "+piece if ret else piece
             ret += piece
 
+    return ret
+
+def _str_count(count):
+    """
+    Format a count with six digits precision, without the exponent that
+    the formula grammar cannot read back.
+    """
+    ret = "%g"%count
+    if 'e' in ret:
+        from decimal import Decimal
+        ret = format(Decimal(ret), 'f')
     return ret
 
 def _is_string_like(val):
